@@ -199,6 +199,7 @@ func pickLive(t *rapid.T, m *Model, recent []uint32, label string) (uint32, bool
 
 // TxnCfg controls transaction generation.
 type TxnCfg struct {
+	Prop         string // property the exclusion counters are reported under
 	MaxSteps     int
 	Rollback     bool // transactions may end in an error
 	FailInsert   bool // insert callbacks may fail (swallowed by the body)
@@ -314,7 +315,7 @@ func genTxn(t *rapid.T, m *Model, recent []uint32, cfg TxnCfg) TxnSpec {
 		case SUpdate:
 			row, _ := pickLive(t, m, recent, "row")
 			if cfg.NoStoreOnDel && deleting[row] {
-				CountExcluded("C11", "f11-store-and-delete-same-txn")
+				CountExcluded(cfg.Prop, "f11-store-and-delete-same-txn")
 				continue
 			}
 			st.Row = row
@@ -323,7 +324,7 @@ func genTxn(t *rapid.T, m *Model, recent []uint32, cfg TxnCfg) TxnSpec {
 		case SDelete:
 			row, _ := pickLive(t, m, recent, "row")
 			if cfg.NoStoreOnDel && stored[row] {
-				CountExcluded("C11", "f11-store-and-delete-same-txn")
+				CountExcluded(cfg.Prop, "f11-store-and-delete-same-txn")
 				continue
 			}
 			st.Row = row
@@ -347,7 +348,7 @@ func genTxn(t *rapid.T, m *Model, recent []uint32, cfg TxnCfg) TxnSpec {
 				if creating[st.Key] {
 					// second creating operation for one key in one transaction: known finding F17
 					if KFActive("f17-double-create-same-key") {
-						CountExcluded("C12", "f17-double-create-same-key")
+						CountExcluded(cfg.Prop, "f17-double-create-same-key")
 						continue
 					}
 				}
@@ -360,7 +361,7 @@ func genTxn(t *rapid.T, m *Model, recent []uint32, cfg TxnCfg) TxnSpec {
 			} else if kind == SUpsertKey {
 				at, _ := m.KeyOf(st.Key)
 				if cfg.NoStoreOnDel && deleting[at] {
-					CountExcluded("C11", "f11-store-and-delete-same-txn")
+					CountExcluded(cfg.Prop, "f11-store-and-delete-same-txn")
 					continue
 				}
 				stored[at] = true
@@ -370,7 +371,7 @@ func genTxn(t *rapid.T, m *Model, recent []uint32, cfg TxnCfg) TxnSpec {
 			st.Stores = genStores(t, m, cfg, 0, 3, "q")
 			if at, ok := m.KeyOf(st.Key); ok {
 				if cfg.NoStoreOnDel && deleting[at] {
-					CountExcluded("C11", "f11-store-and-delete-same-txn")
+					CountExcluded(cfg.Prop, "f11-store-and-delete-same-txn")
 					continue
 				}
 				stored[at] = true
@@ -379,7 +380,7 @@ func genTxn(t *rapid.T, m *Model, recent []uint32, cfg TxnCfg) TxnSpec {
 			st.Key = rapid.SampledFrom(keyAlphabet).Draw(t, "key")
 			if at, ok := m.KeyOf(st.Key); ok {
 				if cfg.NoStoreOnDel && stored[at] {
-					CountExcluded("C11", "f11-store-and-delete-same-txn")
+					CountExcluded(cfg.Prop, "f11-store-and-delete-same-txn")
 					continue
 				}
 				deleting[at] = true
@@ -390,11 +391,11 @@ func genTxn(t *rapid.T, m *Model, recent []uint32, cfg TxnCfg) TxnSpec {
 			st.Key = rapid.SampledFrom(keyAlphabet).Draw(t, "key")
 			if _, exists := m.KeyOf(st.Key); !exists {
 				if creating[st.Key] && KFActive("f17-double-create-same-key") {
-					CountExcluded("C12", "f17-double-create-same-key")
+					CountExcluded(cfg.Prop, "f17-double-create-same-key")
 					continue
 				}
 				if cfg.NoStoreOnDel && deleting[row] {
-					CountExcluded("C11", "f11-store-and-delete-same-txn")
+					CountExcluded(cfg.Prop, "f11-store-and-delete-same-txn")
 					continue
 				}
 				creating[st.Key] = true
@@ -416,6 +417,17 @@ func genTxn(t *rapid.T, m *Model, recent []uint32, cfg TxnCfg) TxnSpec {
 	}
 	if cfg.Rollback && rapid.IntRange(0, 3).Draw(t, "rollback") == 0 {
 		spec.FailAt = rapid.IntRange(0, len(spec.Steps)-1).Draw(t, "fail-at")
+	}
+	if cfg.FailInsert && KFActive("f22-swallowed-insert-failure") {
+		// known finding: a failing insert whose error is swallowed by a committing body.
+		// Excluded by construction: the body propagates the error of the first failing insert.
+		for i, st := range spec.Steps {
+			if st.Fail && (spec.FailAt < 0 || spec.FailAt > i) {
+				CountExcluded(cfg.Prop, "f22-swallowed-insert-failure")
+				spec.FailAt = i
+				break
+			}
+		}
 	}
 	return spec
 }
